@@ -47,6 +47,8 @@ Comments == <<LineComment("// c", "c", "Comment", 3), LineComment("//c", "c", "C
               CComment("/* c */", "c", "Comment", 3), CComment("/**/", "", "Comment", 2), CComment("/*c*/", "c", "Comment", 2),
               CComment("/* // c */", "// c", "Comment", 3), CComment("/*! d */", "d", "DoxygenComment", 4),
               CComment("/*!< d */", "d", "DoxygenBackwardComment", 5), CComment("/* a*b */", "a*b", "Comment", 3),
+              \* stars next to the closing delimiter (odd and even runs)
+              CComment("/* c **/", "c *", "Comment", 3), CComment("/***/", "*", "Comment", 2), CComment("/*** b ***/", "** b **", "Comment", 2),
               MultiComment("/*a", "b*/", "a\nb", 2)>>
 Directives == <<Directive("define"), Directive("include"), Directive("ifdef"), Directive("endif"), Directive("pragma")>>
 Alphabet == Words \o Numbers \o Strings \o Chars \o Puncts \o Ops \o Comments \o Directives
